@@ -207,6 +207,22 @@ C14_REQS = [
 ]
 
 
+def _prove_wrapper(prog, eng, path):
+    """(atoms of the base argument in the helper's own terms, parameter that is the commitment) when `path` calls nisp2sec_generate_proof once
+    with a commitment that is one of its parameters"""
+    wb = prog.bodies.get(path)
+    if wb is None or wb.kind == 'Closure':
+        return None
+    wfd = eng.fndep(path)
+    sites = [t for bi, t in wb.calls() if (local_target(eng, t) or '').endswith('nisp2sec_generate_proof')]
+    if len(sites) != 1 or len(sites[0]['args']) < 3 or sites[0]['args'][1]['k'] not in ('copy', 'move'):
+        return None
+    root, pth = wfd.resolve_place(sites[0]['args'][1]['pl'])
+    if not wfd.is_param(root) or pth:
+        return None
+    return set(wfd.read_op(sites[0]['args'][2])), root
+
+
 def rule_commit_prove_base_agreement(ctx, cfg='prod-all'):
     """for every (commit_*, nisp2sec_generate_proof) pair over the same commitment: the index selector of the commitment and the base handed to
     the proof either both depend on the hidden-position list, or neither does (Engler: one sibling does it, the other does not)."""
@@ -219,13 +235,26 @@ def rule_commit_prove_base_agreement(ctx, cfg='prod-all'):
         kidx = b.param_index('unrevealed_message_indexes')
         n = 0
         for bi, t in b.calls():
-            if not (local_target(eng, t) or '').endswith('nisp2sec_generate_proof'):
-                continue
+            tgt = local_target(eng, t) or ''
+            if tgt.endswith('nisp2sec_generate_proof'):
+                base_at = fd.read_op(t['args'][2])
+                carg = t['args'][1]
+            else:
+                # a helper of the module that proves knowledge of the value it is given: nisp2sec_generate_proof(value, commitment, base, ..) on its own
+                # parameters - its call here is the proof site, base and commitment are what is handed in for those parameters
+                w = _prove_wrapper(prog, eng, tgt) if tgt.startswith('cl03::') and tgt in prog.bodies else None
+                if w is None:
+                    continue
+                base_atoms_w, kc = w
+                if kc - 1 >= len(t['args']):
+                    continue
+                base_at = set()
+                for a in base_atoms_w:
+                    base_at |= fd._inst_atom(a, t['args'])
+                carg = t['args'][kc - 1]
             n += 1
-            base_at = fd.read_op(t['args'][2])
             base_dep = any(strip(a)[0] == 'p' and strip(a)[1] == kidx for a in base_at)
             # the commitment argument -> the commit_* call that produced it
-            carg = t['args'][1]
             commit_call = None
             l = carg['pl']['l'] if carg['k'] in ('copy', 'move') else None
             seen = set()
